@@ -43,7 +43,7 @@ def build():
     u.macro(AP, "set_data_builder")
     u.module("acme_proto", "use crate::*;\nuse crate::shims::*;\nuse crate::shims::structs::*;\nuse crate::shims::{http, storage, certificate, serde_json};\n"
              "use crate::jws::encode_kid;\nuse crate::acme_common::error::Error;")
-    u.verify(AP, "request_certificate", "acme_proto", props=["C03", "C05", "C07", "C01", "C02", "C10"], fns={"request_certificate": FnSpec(
+    u.verify(AP, "request_certificate", "acme_proto", props=["C03", "C05", "C07", "C01", "C02", "C10", "C11"], fns={"request_certificate": FnSpec(
         ret="r", ghost=True, locks=True, attrs="#[verifier::exec_allows_no_decreases_clause]", sig="""
     requires old(w).pending_clean.len() == 0, !old(w).hooks_ok, !old(w).cert_written, old(w).cur_auth is None, old(w).downloaded is None,
     ensures
@@ -114,6 +114,11 @@ def build():
         // the certificate is fetched only from an order the CA reports valid (an announced URL alone is not an issued certificate)
         assert(order.status is Valid); //@C03.certificate_is_downloaded_only_from_a_valid_order,C07.certificate_is_downloaded_only_from_a_valid_order
     }"""),
+            ("before_stmt_re", r"\.register\(", 1, """
+                    proof {
+                        // the account is registered again from here only because the CA has just answered that it does not know it
+                        assert(crate::shims::err_is(e, AcmeError::AccountDoesNotExist)); //@C11.account_is_registered_again_only_when_the_ca_reports_it_unknown
+                    }"""),
             ("before_stmt", "hook_datas.clear()", 1, "proof { assert(hook_datas@.skip(hook_datas@.len() as int) =~= Seq::empty()); }"),
             ("after_stmt", "hook_datas.clear()", 1, "proof { assert(clean_views(hook_datas@) =~= Seq::empty()); }"),
             ])})
